@@ -28,3 +28,23 @@ check('C11', 'exploration',
       'All 14 sequences over {close(), context-manager exit} up to length 3 are run for both writer classes, both formats, in-memory and real files, over enumerated and generated record lists. The file must read back as written and must not change after the first finalisation. The bounded history space is covered completely.',
       'The wrapped file object stays open after close(), as in the documented usage.',
       'DESIGN.md section 4 C11')
+check('C01', 'exploration',
+      'Hypothesis round trips over generated (configuration, codec, bitmap rendering, message) + exhaustive sweeps of variable-field lengths, numeric extremes and calendar days',
+      'loads(dumps(m)) is checked key by key (value and type) over the packaged and generated configurations, all single-byte codecs Python ships and both bitmap renderings; variable-field lengths, numeric extremes and the whole two-digit-year window of DE12 are swept exhaustively in the thorough tier (boundaries in quick). Generated search cannot show absence; the swept sub-spaces are complete.',
+      'Values always fit their field; PAN fields hold >= 10 digits; the reference masker is trusted.',
+      'DESIGN.md section 4 C01')
+check('C02', 'exploration',
+      'differential testing against an independent reference codec (both directions), exhaustive single-bit/bit-pair subsets, refusal of over-long variable values',
+      'dumps output is compared byte for byte with an independent encoder and loads output key for key with an independent strict decoder on reference-encoded bytes, over generated messages/configurations/codecs; every single bit and bit pair of two configurations is enumerated (pairs sampled in quick); every over-long variable value in the boundary ranges must be refused.',
+      'Trusts vlib/refcodec.py, written from the documentation and the vectors pinned by the repository tests.',
+      'DESIGN.md section 4 C02')
+check('C12', 'exploration',
+      'Hypothesis PDS sets + exhaustive boundary sweep of value-length pairs around the 999 limit; dumps output parsed by an independent decoder (validity predicate), loads compared',
+      'Carrier contents are parsed independently: each <= 999 characters, whole sub-elements only, ascending tag order across ascending carriers, set equal to the input; loads must return the same PDSxxxx set. Every pair of value lengths putting the running carrier length in 985..1005 is enumerated in the thorough tier (every 9th in quick), also behind full carriers.',
+      'In-order greedy packing defines "within capacity"; greedy layout itself is not demanded of the implementation.',
+      'DESIGN.md section 4 C12')
+check('C16', 'exploration',
+      'exhaustive lengths x content classes x mask characters for mask(); Hypothesis masking configurations through loads and IpmReader with exact-mask and clear-PAN-absence oracle',
+      'mask() is enumerated over lengths 10..40, five content classes and twelve mask characters and sampled to 99 characters; masking configurations on arbitrary variable-length bits are decoded through loads and IpmReader (VBS and 1014) and the result scanned for the clear PAN. PAN lengths 10..99 / to 999 are swept.',
+      'For a 10-character number the masked value is the number itself (first six + last four), so the absence scan skips that element.',
+      'DESIGN.md section 4 C16')
